@@ -624,7 +624,12 @@ def build_imm_class(owner):
     """immutable owners holding tuple-valued data: owner = "structure" (ImmutableStructure) | "fields" (a mutable
     Structure all of whose fields are declared immutable=True)"""
     import typedpy as T
-    inner = type("ImmInner", (Structure,), {"x": T.Integer(), "l": T.Array(items=T.Integer()), "_required": ["x"]})
+    from typedpy.serialization.fast_serialization import FastSerializable
+    inner = type("ImmInner", (Structure, FastSerializable), {"x": T.Integer(), "l": T.Array(items=T.Integer()), "_required": ["x"]})
+    try:
+        create_serializer(inner)     # (create_serializer of the owner checks the classes its Tuple items refer to)
+    except Exception:
+        pass
     imm = {"immutable": True} if owner == "fields" else {}
     body = {"ts": T.Tuple(items=[T.ClassReference(inner), T.Integer()], **imm), "any": T.Anything(**imm),
             "tu": T.Tuple(items=[T.Anything(), T.Integer()], **imm), "ar": T.Array(**imm), "mp": T.Map(**imm),
